@@ -34,6 +34,7 @@ pub struct ExecOut<R> {
 thread_local! {
     static OUT: RefCell<Option<Box<dyn Any>>> = const { RefCell::new(None) };
     static LAST_PANIC: RefCell<Option<(String, String)>> = const { RefCell::new(None) };
+    static IN_EXEC: std::cell::Cell<bool> = const { std::cell::Cell::new(false) };
 }
 
 fn payload_msg(p: &(dyn Any + Send)) -> String {
@@ -74,7 +75,8 @@ pub fn init() {
                     format!("{}:{}", short, l.line())
                 })
                 .unwrap_or_else(|| "?".to_string());
-            if verbose {
+            // a panic outside a simulated execution is a bug of the harness itself: never silent
+            if verbose || !IN_EXEC.with(|f| f.get()) {
                 eprintln!("[wsim] panic: {} at {}", msg, loc);
             }
             LAST_PANIC.with(|p| {
@@ -94,6 +96,7 @@ pub fn execute<R: 'static>(spec: &SchedSpec, run: Run, body: impl FnOnce() -> R 
     let body = Mutex::new(Some(body));
     let run_cell = Mutex::new(Some(RunBox(run)));
     let runner = Runner::new(Sched::new(spec.clone()), base_config());
+    IN_EXEC.with(|f| f.set(true));
     let res = panic::catch_unwind(AssertUnwindSafe(move || {
         runner.run(move || {
             let body = body.lock().unwrap().take().expect("single execution");
@@ -104,6 +107,7 @@ pub fn execute<R: 'static>(spec: &SchedSpec, run: Run, body: impl FnOnce() -> R 
             OUT.with(|o| *o.borrow_mut() = Some(Box::new((v, run)) as Box<dyn Any>));
         })
     }));
+    IN_EXEC.with(|f| f.set(false));
     let sched = LAST.with(|l| std::mem::take(&mut *l.borrow_mut()));
     match res {
         Ok(_) => {
